@@ -84,6 +84,11 @@ def run(ctx):
                 lambda t: is_call(t, name="generate_secret_shares") and t[2][1] == ("arg", 2) and t[2][2] == ("arg", 3))))
         if validate_ok:
             refusal(ctx, split, "SEP", "G11:parameters-validated", mech, ok_sinks(split), require_fail_err=False)
+            # .. and before they are *used*: the polynomial size `min_signers - 1` is computed only from validated parameters (an
+            # invalid threshold must be refused with an error, not reach the arithmetic)
+            uses = call_sinks(split, lambda ci, t: ci and ci.get("name") == "generate_coefficients")
+            if uses:
+                refusal(ctx, split, "SEP", "G11b:validated-before-the-polynomial-size-is-computed", mech[:1], uses, require_fail_err=False)
         w = Width()
         custom = lambda t: t[0] == "field" and t[1][0] == "variant" and t[1][2] == "Custom" and t[1][1] == ("arg", 4)
         refusal(ctx, split, "SEP", "G12:custom-list-length",
